@@ -14,7 +14,8 @@
 (* hands the deserialized fields to TaggedUnion.__init__, which raises     *)
 (* ValueError unless it receives exactly one -- deviation "ctorvalueerror" *)
 (* (the pinned tree): that ValueError escapes when the only property is an *)
-(* unknown one let through by additional_properties.                       *)
+(* unknown one let through by additional_properties, or a tag whose invalid  *)
+(* value fell back to its default under fall_back_on_default.              *)
 (***************************************************************************)
 EXTENDS DataModel
 
@@ -42,14 +43,16 @@ TaggedM(ctx, tags, d, dev) ==
            res(key)  == RD(ctx, TTypeOf(tags, key), <<>>, Get(d.o, key))
            own     == (IF n < 1 THEN Err("minProperties") ELSE {}) \cup (IF n > 1 THEN Err("maxProperties") ELSE {})
            unexp   == IF ctx.O.addl THEN {} ELSE UNION {Under(key, Err("unexpected")) : key \in keys \ TKeys(tags)}
-           ferr    == UNION {IF res(key).ok THEN {} ELSE Under(key, res(key).e) : key \in known}
-           ferrx   == UNION {Under(key, XOf(res(key))) : key \in known}
+           \* under fall_back_on_default a failing tag falls back to its default, Undefined: it is simply not given
+           ferr    == IF ctx.O.fbd THEN {} ELSE UNION {IF res(key).ok THEN {} ELSE Under(key, res(key).e) : key \in known}
+           ferrx   == IF ctx.O.fbd THEN {} ELSE UNION {Under(key, XOf(res(key))) : key \in known}
+           given   == IF ctx.O.fbd THEN {key \in known : res(key).ok} ELSE known
            all     == own \cup unexp \cup ferr
        IN IF all # {} THEN [kind |-> "verr", r |-> BadX(all, ferrx)]
           ELSE IF \E key \in known : IsUnspec(res(key)) THEN [kind |-> "ok", r |-> Unspecified]
           \* the constructor receives the deserialized known properties
-          ELSE IF Cardinality(known) = 1
-               THEN LET key == CHOOSE x \in known : TRUE IN [kind |-> "ok", r |-> Ok(TVal(key, res(key).v))]
+          ELSE IF Cardinality(given) = 1
+               THEN LET key == CHOOSE x \in given : TRUE IN [kind |-> "ok", r |-> Ok(TVal(key, res(key).v))]
           ELSE IF "ctorvalueerror" \in dev THEN [kind |-> "exc", r |-> Bad({})]
           ELSE [kind |-> "verr", r |-> Bad({<< <<>>, "ANY" >>})]
 
